@@ -55,6 +55,13 @@ class Report:
         self.extra = {}
         self.not_run = []
         self.bounded = []
+        default = "1500" if tier == "quick" else "21600"
+        self.budget_s = float(os.environ.get("VERIF_BUDGET_S", default))
+
+    def check_budget(self):
+        if time.time() - self.t0 > self.budget_s:
+            raise Undecided("time budget of %.0f s exceeded after %d obligations (set VERIF_BUDGET_S to raise it)"
+                            % (self.budget_s, len(self.obligations)))
 
     def progress(self, msg):
         if os.environ.get("VERIF_VERBOSE"):
